@@ -140,6 +140,14 @@ def eval_value(ve, walk, lineno, consts):
         return consts[ve[2]] + walk.label_offset(ve[1])
     if ve[0] == 'const':
         return consts[ve[1]]
+    if ve[0] in ('hi', 'lo'):
+        # %hi / %lo of a value, written from their definition (C07): lo = the low 12 bits read
+        # as signed, hi = the remaining upper part read as a signed 20-bit number
+        v = eval_value(ve[1], walk, lineno, consts)
+        lo = ((v + 2048) % 4096) - 2048
+        if ve[0] == 'lo':
+            return lo
+        return ((((v - lo) >> 12) + (1 << 19)) % (1 << 20)) - (1 << 19)
     raise ValueError(ve)
 
 
@@ -376,7 +384,8 @@ def _regnum(tok):
     return expected_register_spellings()[tok]
 
 
-def layout_task(prop, name, srclines, compress, gap_bits=23, k_bits=34, max_paths=600):
+def layout_task(prop, name, srclines, compress, gap_bits=23, k_bits=34, max_paths=600, report=None):
+    report = report or prop
     t = Template(name, srclines)
     tag = 'layout:%s:%s' % (name, 'c' if compress else 'n')
     res = TaskResult(tag)
@@ -401,8 +410,8 @@ def layout_task(prop, name, srclines, compress, gap_bits=23, k_bits=34, max_path
                 if ok:
                     res.inconc('%s: counterexample %r for "%s" did not reproduce' % (tag, inp, oname))
                 else:
-                    path = common.write_replay(prop, tag + '_' + oname[:30], dict(
-                        kind='program', property=prop, source=t.text, constants={k: v for k, v in inp.items() if k in p.notes['constants']},
+                    path = common.write_replay(report, tag + '_' + oname[:30], dict(
+                        kind='program', property=report, source=t.text, constants={k: v for k, v in inp.items() if k in p.notes['constants']},
                         gap_bytes={k: v for k, v in inp.items() if k in p.notes['markers']}, compress=compress,
                         what=oname, detail=detail))
                     res['violations'].append(dict(harness='layout', template=name, kind=oname, compress=compress,
